@@ -672,6 +672,17 @@ fn gen_content(rng: &mut Rng, big: bool) -> Content {
                         c.insert(cb, w);
                     }
                 }
+                // zero has two spellings: some combos of a weight-0 run get -0.0 (equal
+                // weight, other bits) — which one a token shows must follow the contents
+                if w == 0 && rng.chance(1, 2) {
+                    for k in a..=b {
+                        for cb in rp_combos(kind, h, k) {
+                            if rng.chance(1, 2) {
+                                c.insert(cb, 0x8000_0000);
+                            }
+                        }
+                    }
+                }
                 // break the run with one different weight in the middle
                 if b > a && rng.chance(1, 3) {
                     let k = rng.range(a as u64, b as u64) as u8;
@@ -889,6 +900,12 @@ fn gen_case(seed: u64, seeds_on: bool, thorough: bool) -> Case {
                         *v = if *v == w1 { w2 } else { w1 };
                     }
                 }
+            }
+            // a decoy that equals the contents as f32 values but not bit for bit (0.0 vs
+            // -0.0) would be an 'equal range' whose text legitimately shows the other zero
+            let f32_equal = d.len() == c.len() && d.iter().all(|(k, v)| c.get(k).map(|w| f32::from_bits(*w) == f32::from_bits(*v)).unwrap_or(false));
+            if f32_equal && d != c {
+                continue;
             }
             let h = if rng.chance(1, 4) { gen_parse_history(&mut rng, &d, seeds_on) } else { gen_history(&mut rng, &d, seeds_on) };
             let at = rng.range(1, hs.len() as u64) as usize;
